@@ -289,16 +289,93 @@ def c26_worker(lines):
     return r.dump()
 
 
+def c26_wrapper_histories(res):
+    """the pure-python front end clvm_rs.serde.serialize / deserialize: every (format, keyword) combination must equal
+    the direct extension function with the documented defaults, and — history dimension — the outcome of a call must
+    not depend on ANY earlier call (all ordered pairs of calls over a small call alphabet, each pair in this one process)."""
+    import clvm_rs.clvm_rs as c
+    from clvm_rs import serde
+
+    def atom_tree_2026(n):
+        return c.ser_2026(c.deser_legacy(bytes([0xff]) + atom_prefix(n) + b"\x5a" * n + b"\x80"))
+
+    def atom_prefix(n):
+        if n < 0x40:
+            return bytes([0x80 | n])
+        if n < 0x2000:
+            return bytes([0xc0 | (n >> 8), n & 0xff])
+        if n < 0x100000:
+            return bytes([0xe0 | (n >> 16), (n >> 8) & 0xff, n & 0xff])
+        return bytes([0xf0 | (n >> 24), (n >> 16) & 0xff, (n >> 8) & 0xff, n & 0xff])
+
+    blobs = {
+        "2026:100B": atom_tree_2026(100),
+        "2026:1MiB": atom_tree_2026(1 << 20),
+        "2026:1MiB+1": atom_tree_2026((1 << 20) + 1),
+        "legacy:small": bytes.fromhex("ff8568656c6c6f80"),
+        "backrefs": bytes.fromhex("ff86666f6f626172fe02"),
+        "2026:overlong-varint": None,
+    }
+    blobs = {k: v for k, v in blobs.items() if v is not None}
+
+    def outcome(fn):
+        try:
+            return ("ok", walk_ser(fn()).hex()[:64], None)
+        except ValueError as ex:
+            return ("err", str(ex), None)
+
+    # call alphabet: (name, thunk through the python wrapper, thunk through the extension function with explicit defaults)
+    calls = []
+    for bn, b in blobs.items():
+        for fmt in ("auto", "2026", "legacy", "backrefs"):
+            direct = {"auto": c.deser_auto, "2026": c.deser_2026, "legacy": c.deser_legacy, "backrefs": c.deser_backrefs}[fmt]
+            kw_default = {"strict": True, "max_atom_len": 1 << 20} if fmt in ("auto", "2026") else {}
+            calls.append((f"deserialize({bn},{fmt})", (lambda b=b, fmt=fmt: serde.deserialize(b, fmt)), (lambda b=b, d=direct, kw=kw_default: d(b, **kw))))
+            if fmt in ("auto", "2026"):
+                for mal in (0, 8, 100, 4 << 20):
+                    for strict in (True, False):
+                        calls.append((f"deserialize({bn},{fmt},max_atom_len={mal},strict={strict})",
+                                      (lambda b=b, fmt=fmt, mal=mal, strict=strict: serde.deserialize(b, fmt, max_atom_len=mal, strict=strict)),
+                                      (lambda b=b, d=direct, mal=mal, strict=strict: d(b, strict=strict, max_atom_len=mal))))
+    expected = {}
+    for name, wrapped, direct in calls:
+        expected[name] = outcome(direct)
+    n = 0
+    seconds = [cl for cl in calls if "max_atom_len" not in cl[0] or "2026:100B,auto" in cl[0]]
+    for n1, w1, _ in calls:
+        for n2, w2, _ in seconds:
+            outcome(w1)
+            got = outcome(w2)
+            n += 1
+            if got != expected[n2]:
+                res.violation(f"python wrapper history: {n1} then {n2}", f"the second call gives {got}, the extension function with the documented defaults gives {expected[n2]}")
+    # serialize wrapper
+    node = c.deser_legacy(bytes.fromhex("ff8568656c6c6fff8568656c6c6f80"))
+    for fmt, fn in (("legacy", c.ser_legacy), ("backrefs", c.ser_backrefs), ("2026", c.ser_2026)):
+        for lvl in (0, 1, 0xFFFFFFFF):
+            exp = fn(node, level=lvl) if fmt == "2026" else fn(node)
+            if serde.serialize(node, fmt, level=lvl) != exp:
+                res.violation(f"python wrapper serialize({fmt}, level={lvl})", "differs from the extension function")
+            n += 1
+    res.inc("wrapper_history_pairs", n)
+    res.evaluations += n
+    res.nontrivial += n
+
+
 def run_c26(res):
     lines = open(cases_file("C26")).read().splitlines()
     with mp.Pool(16) as pool:
         for d in pool.imap_unordered(c26_worker, chunks(lines, 64)):
             res.merge(d)
+    try:
+        c26_wrapper_histories(res)
+    except Exception:
+        res.violation("python-leg exception in the wrapper histories", traceback.format_exc()[-1200:])
     res.rule = ("every harness-generated case is replayed through the freshly built extension module: run_serialized_chia_program for programs of P1, "
                 "P5thin, PV, P4 x every single flag bit 0..31, MEMPOOL_MODE, all-ones and (every 16th program) every pair of defined bits x budgets {0,1,C,C-1} plus malformed "
                 "serializations, compared with the Rust core (same flags after truncation, same allocator limit): cost, result tree (walked through LazyNode.atom/.pair and through "
                 "ser_legacy) or the exact error message and error node; ser_legacy/ser_backrefs/ser_2026 on every small tree; deser_legacy/deser_backrefs/deser_2026/deser_auto/"
-                "serialized_length/deserialize_as_tree on every short byte string, back-reference streams and 2026 blobs. Non-trivial = cases with a compared success or a compared error node.")
+                "serialized_length/deserialize_as_tree on every short byte string, back-reference streams and 2026 blobs; the pure-python serde.serialize/deserialize front end: every ordered PAIR of calls over a call alphabet (5 blobs x 4 formats x max_atom_len x strict) — the second call must equal the extension function with the documented defaults whatever the first call was. Non-trivial = cases with a compared success or a compared error node.")
 
 
 # ---------------------------------------------------------------------------------------------
